@@ -114,6 +114,11 @@ def gen_late_browser_family(rng):
     if rng.random() < 0.3:
         ops.append([rng.randint(3000, 20000), "update", 0] + ([{"other_ttl": rng.choice(PTR_TTLS)}] if rng.random() < 0.5 else []))
     m = rng.choice([1, 5, 10, 30, 37, 38, 40, 45, 50, 56, 57, 60, 65, 70, 74, 75, 76, 80]) * minute + rng.choice([0, 1, rng.randint(0, minute)])
+    if rng.random() < 0.25:
+        # around the 75 % point of the default TTL (announcements at ~0.35-0.8 s + 3375 s): the browser starts after it, or so
+        # shortly before it that the 75 % point falls into its start-up phase (K3b's start-up branch: the boundary is 24.12 s)
+        m = 3375000 + rng.choice([-40000, -30000, -26000, -25000, -24200, -24000, -23000, -15000, -5000, -1000, 0, 500, 1000, 5000]) \
+            + rng.choice([0, 350, 800, rng.randint(0, 1000)])
     ops.append([m, "browse", 1, 0])
     if nh >= 3:
         if rng.random() < 0.6:  # a host that did not overhear anything
